@@ -1,5 +1,6 @@
 """C10 — reply content reaches the caller unaltered (operations/rpc.py, retrieve.py, xml_.py NCElement,
-devices/junos.py XSLT, alu.py, sros.py).  Model: coq/Model/ReplyView.v, NsStrip.v; theorems: coq/Props/C10.v."""
+devices/junos.py XSLT, alu.py, sros.py).  Model: coq/Model/ReplyView.v, NsStrip.v, ReplyLife.v (histories: the RPC object
+between request() and the delivery of its reply); theorems: coq/Props/C10.v."""
 import json, os, re, sys
 from harness import xmlgen as X
 from harness import fakesession as F
@@ -11,7 +12,14 @@ RULE = ('Generated <rpc-reply> documents (random binding of the base namespace, 
         'children, <ok/>, 0-3 <rpc-error>) serialised by the harness and delivered through a fake Session to real '
         'Manager.get/get_config/get_schema/dispatch/rpc calls under default/junos/alu/sros, huge_tree on/off, raise mode '
         'NONE/ALL. A case = (profile, operation, flags, reply document); non-trivial = the reply has >= 3 elements. '
-        'Thorough adds 11 MB text nodes and 300-deep trees with huge_tree on/off.')
+        'Thorough adds 11 MB text nodes and 300-deep trees with huge_tree on/off. '
+        'Histories (round 4): 1-4 calls on ONE Manager (plus the vendor operations that force the flag: junos get_configuration(format=text), '
+        'sros md_cli_raw_command), each asynchronous (request() returns the RPC object, the reply is dispatched later), synchronous answered inside '
+        'send(), or synchronous waiting while another thread delivers; between request and delivery: manager.huge_tree changed, other calls '
+        'issued, replies dispatched in any order, a stray second message repeating an answered id, the caller writing rpc.huge_tree; rpc.reply '
+        'views read in random order, once or twice. Expected flag of a call = Manager flag when the call was made or forced by the operation, '
+        'then the caller\'s own writes before delivery. Both tiers: 11 MB text / depth-300 replies delivered after request() returned for every '
+        'flag-forcing operation and for plain operations whose Manager flag changes before the reply comes.')
 ASSUMES = ['libxml2 parsing, libxslt execution and libxml2 resource limits are oracles (the XSLT is modelled by hand as three templates)',
            'the remove_blank_text parsers drop only white-space-only text nodes (checked on every Junos case); which of them are dropped is libxml2 heuristics and is not modelled',
            'parse_root (iterparse, first start event) in Session._dispatch_message takes no huge_tree flag; it stops at the root start tag and is not counted as a full-document parse site']
@@ -22,7 +30,11 @@ NCM = 'urn:ietf:params:xml:ns:yang:ietf-netconf-monitoring'
 B = X.B
 PROFILES = ['default', 'junos', 'alu', 'sros']
 PCODE = {'default': 0, 'junos': 1, 'alu': 2, 'sros': 3}
-CCODE = {'dispatch': 0, 'rpc': 0, 'get': 1, 'get_config': 1, 'get_schema': 2}
+CCODE = {'dispatch': 0, 'rpc': 0, 'get': 1, 'get_config': 1, 'get_schema': 2,
+         'get_configuration': 0, 'get_configuration_text': 0, 'md_cli_raw_command': 0}
+# operations documented to switch huge-tree support on for their own call, whatever the Manager's setting
+FORCED_OPS = ('get_schema', 'get_configuration_text', 'md_cli_raw_command')
+OUTCODE = {'parse-error': 0, 'hook-error': 1, 'raised': 2, 'reply': 3, 'elem': 4}
 SIG_F16 = 'junos_attr_localname_collision'
 
 
@@ -82,11 +94,38 @@ def build_reply(case, mid):
         return '<rpc-reply xmlns="%s" message-id="%s" xmlns:a="urn:a">%s%s<a:top k="v">%s</a:top></data></rpc-reply>' % (BASE, mid, errs, dn, inner)
     return case['reply'].replace('MSGID', mid)
 
-def _evaluate(case, r):
-    from ncclient import xml_, operations
-    from ncclient.operations.rpc import RPCReply, RPCError
+def invoke(m, op):
+    """one Manager call; -> (outcome, object)"""
+    from ncclient.operations.rpc import RPCError
     from ncclient.xml_ import NCElement
     from lxml import etree
+    try:
+        if op == 'get': res = m.get()
+        elif op == 'get_config': res = m.get_config(source='running')
+        elif op == 'get_schema': res = m.get_schema('mod')
+        elif op == 'dispatch': res = m.dispatch(etree.Element('{urn:x}op'))
+        elif op == 'rpc': res = m.rpc(etree.Element('op'))
+        elif op == 'get_configuration': res = m.get_configuration()
+        elif op == 'get_configuration_text': res = m.get_configuration(format='text')
+        elif op == 'md_cli_raw_command': res = m.md_cli_raw_command('show version')
+        else: raise ValueError('unknown operation %r' % op)
+        return ('elem' if isinstance(res, NCElement) else 'reply'), res
+    except RPCError as ex: return 'raised', ex
+    except etree.XMLSyntaxError as ex: return 'parse-error', ex
+    except AttributeError as ex: return 'hook-error', ex
+
+def relabel(sites):
+    """sites of ONE call / ONE read out of a longer ParseSites log: the first _get_parser use is the reply parse (0), later ones re-parses (1)"""
+    out, seen = [], False
+    for s, f in sites:
+        if s in (0, 1):
+            out.append((1 if seen else 0, f)); seen = True
+        else: out.append((s, f))
+    return out
+
+def _evaluate(case, r):
+    if case.get('kind') == 'hist': return _evaluate_hist(case, r)
+    from ncclient import operations
     prof, op, huge, rmode = case['profile'], case['op'], case['huge'], case.get('raise_mode', 0)
     sent = {}
     def script(req, mid):
@@ -94,93 +133,101 @@ def _evaluate(case, r):
     m, s = F.make_manager(prof, script)
     m.huge_tree = huge
     m.raise_mode = [operations.RaiseMode.NONE, operations.RaiseMode.ERRORS, operations.RaiseMode.ALL][rmode]
-    forced = op == 'get_schema'
-    flag = huge or forced
+    forced = op in FORCED_OPS
     with F.ParseSites() as ps:
-        try:
-            if op == 'get': res = m.get()
-            elif op == 'get_config': res = m.get_config(source='running')
-            elif op == 'get_schema': res = m.get_schema('mod')
-            elif op == 'dispatch': res = m.dispatch(etree.Element('{urn:x}op'))
-            elif op == 'rpc': res = m.rpc(etree.Element('op'))
-            out = 'elem' if isinstance(res, NCElement) else 'reply'
-        except RPCError as ex: res, out = ex, 'raised'
-        except etree.XMLSyntaxError as ex: res, out = ex, 'parse-error'
-        except AttributeError as ex: res, out = ex, 'hook-error'
+        out, res = invoke(m, op)
     raw = sent.get('raw')
     if raw is None:
         r.fail('request was not sent'); return
+    def mreq(rk, exp): return [5, PCODE[prof], CCODE[op], int(huge), int(forced), rk, exp]
+    judge(r, case, prof, op, huge or forced, rmode, raw, out, res, list(ps.log), mreq)
+
+def exp_schema_child(exp, prof):
+    """the <data> child a get-schema reply's text is taken from: the first one in the monitoring namespace; Junos devices that
+    send it in the base / no namespace: the reply's single child called data (devices/junos.py fix_get_schema_reply)"""
+    d = exp_first_child(exp, NCM, 'data')
+    if d is None and prof == 'junos':
+        ds = [k for k in exp[3] if k[0] == 0 and k[1][1] == b'data']
+        if len(ds) == 1 and ds[0][1][0] in ([B(BASE)], []) and name_is(exp, BASE, 'rpc-reply'):
+            d = ds[0]
+    return d
+
+def judge(r, case, prof, op, flag, rmode, raw, out, res, sites, mreq, mode='sync', tag=''):
+    """the property on ONE call: `out`/`res` what the caller got (sync: returned / raised; async: rpc.reply read later),
+    `sites` the full-document parses done for it, `flag` whether huge-tree support is enabled for this call,
+    mreq(rk, exp) the model call predicting outcome and sites."""
     big = 'big' in case
     exp = X.indep_read(raw)                      # the independent reader's view of what the server sent
     if case.get('expected') is not None:
         want = X.canon(msgid_sub(case['expected'], raw))
         if X.canon(exp) != want:
-            r.fail('harness self-check: independent reader disagrees with the generator', expected=want, actual=X.canon(exp))
+            r.fail(tag + 'harness self-check: independent reader disagrees with the generator', expected=want, actual=X.canon(exp))
     nerr = exp_has_errors(exp)
-    rk = 0 if (rmode == 0 or nerr == 0) else (1 if nerr == 1 else 2)
+    rk = 0 if (rmode == 0 or nerr == 0 or mode == 'async') else (1 if nerr == 1 else 2)
     r.hist['outcome'] = out; r.hist['errors'] = min(nerr, 3)
     # ---- flag plumbing: every full-document parse site used the call's flag
-    wrong = [(site, f) for site, f in ps.log if f != flag]
+    wrong = [(site, f) for site, f in sites if f != flag]
     if wrong:
-        r.fail('a parse site on the call path ignored the call\'s huge_tree flag (%r, call flag %r)' % (wrong, flag), expected=flag, actual=wrong)
+        r.fail(tag + 'a parse site on the call path ignored the call\'s huge_tree flag (%r, call flag %r)' % (wrong, flag), expected=flag, actual=wrong)
     if out == 'parse-error':
         if flag:
-            r.fail('reply did not parse although huge_tree is enabled for the call: %s' % str(res)[:120], expected='parsed', actual='XMLSyntaxError')
+            r.fail(tag + 'reply did not parse although huge_tree is enabled for the call: %s' % str(res)[:120], expected='parsed', actual='XMLSyntaxError')
         else:
             r.hist['limits'] = 'rejected without huge_tree'
-            if not big: r.fail('well-formed reply rejected: %s' % str(res)[:120], expected='parsed', actual='XMLSyntaxError')
+            if not big: r.fail(tag + 'well-formed reply rejected: %s' % str(res)[:120], expected='parsed', actual='XMLSyntaxError')
         return
     if big: r.hist['limits'] = 'parsed with huge_tree' if flag else 'parsed without huge_tree'
     # ---- model: outcome, parse sites, returned tree / data view
     if not big:
-        def post(v):
-            return [v[0], [tuple(x) for x in v[1]]]
-        r.mcalls.append(([5, PCODE[prof], CCODE[op], int(huge), int(forced), rk, exp], [{'parse-error': 0, 'hook-error': 1, 'raised': 2, 'reply': 3, 'elem': 4}[out],
-                         [(site, int(f)) for site, f in ps.log]], 'request: outcome and parse sites', post))
+        r.mcalls.append((mreq(rk, exp), [OUTCODE[out], [(site, int(f)) for site, f in sites]], tag + 'request: outcome and parse sites', 'outcome'))
     if out == 'raised':
-        if rk == 0: r.fail('RPCError raised although the reply carries no error or raise mode is NONE', expected='object', actual='RPCError')
+        if rk == 0: r.fail(tag + 'RPCError raised although the reply carries no error or raise mode is NONE', expected='object', actual='RPCError')
         return
     if out == 'hook-error':
-        if not (op == 'get_schema' and nerr == 0 and exp_first_child(exp, NCM, 'data') is None):
-            r.fail('AttributeError from the parsing hook', expected='object', actual=str(res)[:100])
+        if not (op == 'get_schema' and nerr == 0 and exp_schema_child(exp, prof) is None):
+            r.fail(tag + 'AttributeError from the parsing hook', expected='object', actual=str(res)[:100])
         return
     if rk != 0:
-        r.fail('reply with errors returned although raise mode ALL', expected='RPCError', actual=out); return
-    reply = res if out == 'reply' else None
+        r.fail(tag + 'reply with errors returned although raise mode ALL', expected='RPCError', actual=out); return
     # ---- raw text
     if out == 'reply':
-        if res.xml != raw: r.fail('RPCReply.xml differs from the message the server sent', expected=raw[:300], actual=res.xml[:300])
+        if res.xml != raw: r.fail(tag + 'RPCReply.xml differs from the message the server sent', expected=raw[:300], actual=res.xml[:300])
+        if mode == 'async':
+            if bool(res.ok) != (nerr == 0) or len(res.errors) != nerr:
+                r.fail(tag + 'RPCReply.ok / errors do not match the reply\'s <ok/> and <rpc-error> elements', expected=nerr, actual=[res.ok, len(res.errors)])
         cls = CCODE[op]
         if cls == 1:
             d_exp = exp_first_child(exp, BASE, 'data') if nerr == 0 else None
             de = res.data_ele
             got = X.canon(X.lx_resolved(de)) if de is not None else None
             want = X.canon(d_exp) if d_exp is not None else None
-            if got != want: r.fail('data_ele is not the reply\'s first <data> child', expected=want, actual=got)
+            if got != want: r.fail(tag + 'data_ele is not the reply\'s first <data> child', expected=want, actual=got)
             try: dx = X.canon(X.indep_read(res.data_xml))
             except TypeError: dx = None
-            if dx != want: r.fail('data_xml does not read back as the reply\'s <data> child', expected=want, actual=dx)
+            if dx != want: r.fail(tag + 'data_xml does not read back as the reply\'s <data> child', expected=want, actual=dx)
             r.hist['data'] = 'present' if want is not None else 'absent'
-            if not big: r.mcalls.append(([3, 1, exp], [1, want] if want is not None else [0], 'data_of (get)', lambda v: [1, X.canon(v[1])] if v[0] == 1 else v))
+            if not big: r.mcalls.append(([3, 1, exp], [1, want] if want is not None else [0], tag + 'data_of (get)', lambda v: [1, X.canon(v[1])] if v[0] == 1 else v))
         elif cls == 2:
-            d_exp = exp_first_child(exp, NCM, 'data') if nerr == 0 else None
+            d_exp = exp_schema_child(exp, prof) if nerr == 0 else None
             want = lead_text(d_exp) if d_exp is not None else None
             got = res.data
             got = B(got) if got is not None else None
-            if got != want: r.fail('GetSchemaReply.data is not the text of the <data> child', expected=want, actual=got)
-            if not big and (nerr or d_exp is not None):
-                r.mcalls.append(([3, 2, exp], [2, [want] if want is not None else []] if not nerr else [0], 'data_of (get-schema)', None))
+            if got != want: r.fail(tag + 'GetSchemaReply.data is not the text of the <data> child', expected=want, actual=got)
+            if not big and (nerr or exp_first_child(exp, NCM, 'data') is not None):
+                r.mcalls.append(([3, 2, exp], [2, [want] if want is not None else []] if not nerr else [0], tag + 'data_of (get-schema)', None))
+            if not big and mode == 'async':
+                r.mcalls.append((mreq(rk, exp), [0] if nerr else [2, [got] if got is not None else []], tag + 'hook (get-schema, read later)', lambda v: v[2][0]))
         return
     # ---- NCElement: re-read what the caller gets with the independent reader
     try: got = X.indep_read(res.data_xml)
     except Exception as ex:
-        r.fail('NCElement.data_xml unreadable: %s' % ex, actual=type(ex).__name__); return
+        r.fail(tag + 'NCElement.data_xml unreadable: %s' % ex, actual=type(ex).__name__); return
     coll = X.has_local_collision(exp)
     if prof == 'sros':
-        if X.canon(got) != X.canon(exp): r.fail('SR OS pass-through altered the reply', expected=X.canon(exp), actual=X.canon(got))
+        if X.canon(got) != X.canon(exp): r.fail(tag + 'SR OS pass-through altered the reply', expected=X.canon(exp), actual=X.canon(got))
     else:
         if cmp_view(got) != cmp_view(exp):
-            r.fail('transformed reply differs from the server\'s reply beyond namespaces and blank text', expected=cmp_view(exp), actual=cmp_view(got),
+            r.fail(tag + 'transformed reply differs from the server\'s reply beyond namespaces and blank text', expected=cmp_view(exp), actual=cmp_view(got),
                    sig=SIG_F16 if (prof == 'junos' and coll) else None)
     r.hist['collision'] = 'yes' if coll else 'no'
     # navigation on the returned object
@@ -192,20 +239,272 @@ def _evaluate(case, r):
         first = next(e for e in els[1:] if e[1] == tgt[1])
         f = res.find(path)
         if f is None or X.canon(X.lx_resolved(f)) != first:
-            r.fail('NCElement.find(%r) is not the first such element of data_xml' % path, expected=first, actual=None if f is None else X.canon(X.lx_resolved(f)))
+            r.fail(tag + 'NCElement.find(%r) is not the first such element of data_xml' % path, expected=first, actual=None if f is None else X.canon(X.lx_resolved(f)))
         n_all = sum(1 for e in els[1:] if e[1] == tgt[1])
-        if len(res.findall(path)) != n_all: r.fail('NCElement.findall count', expected=n_all, actual=len(res.findall(path)))
+        if len(res.findall(path)) != n_all: r.fail(tag + 'NCElement.findall count', expected=n_all, actual=len(res.findall(path)))
         ft = res.findtext(path)
         wt = (first[3][0][1].decode() if first[3] and first[3][0][0] == 1 else '')
-        if ft != wt: r.fail('NCElement.findtext', expected=wt, actual=ft)
+        if ft != wt: r.fail(tag + 'NCElement.findtext', expected=wt, actual=ft)
         xp = res.xpath('//*')
-        if len(xp) != len(els): r.fail('NCElement.xpath(//*) count', expected=len(els), actual=len(xp))
+        if len(xp) != len(els): r.fail(tag + 'NCElement.xpath(//*) count', expected=len(els), actual=len(xp))
     # model of the transform
     if not big:
         if prof == 'junos':
-            r.mcalls.append(([1, exp], X.canon(got, drop_blank=True), 'junos_xslt vs NCElement document (modulo blank text)', lambda v: X.canon(v, drop_blank=True)))
+            r.mcalls.append(([1, exp], X.canon(got, drop_blank=True), tag + 'junos_xslt vs NCElement document (modulo blank text)', lambda v: X.canon(v, drop_blank=True)))
         elif prof == 'alu':
-            r.mcalls.append(([2, exp], X.canon(got), 'alu vs NCElement document', lambda v: X.canon(v)))
+            r.mcalls.append(([2, exp], X.canon(got), tag + 'alu vs NCElement document', lambda v: X.canon(v)))
+
+
+# ------------------------------------------------------------------ histories: several requests in flight on one Manager
+# case = {'kind': 'hist', 'profile', 'huge0', 'calls': [{'op', 'mode', 'raise_mode', 'reply' | 'big', 'expected', 'query'}], 'steps': [...]}
+#   mode: 'async' (request() returns the RPC object, the reply comes later), 'sync' (the session answers inside send()),
+#         'syncthread' (the caller waits in request() while another thread delivers)
+#   steps: ['mgr_huge', b] | ['call', k] | ['deliver', k] | ['stray', k, j] (a second message with call k's id, carrying call j's document)
+#          | ['rpc_huge', k, b] (the caller writes rpc.huge_tree of the asynchronous object) | ['read', k, order]
+#   the 'deliver'/'stray' steps that directly follow a synchronous call up to its own delivery happen while that call waits.
+READS = ['xml', 'ok', 'data', 'errors']
+
+def _evaluate_hist(case, r):
+    import threading
+    from ncclient import operations
+    from ncclient.operations.rpc import RPCReplyListener
+    from ncclient.operations.errors import OperationError
+    from lxml import etree
+    prof, calls, steps = case['profile'], case['calls'], case['steps']
+    st = [dict(mid=None, rpc=None, raw=None, flag=None, delivered=False, n_read=0) for _ in calls]
+    plan = {'now': None, 'inline': [], 'sent': threading.Event()}
+    events = [[1, 0]]                       # model events; the Manager starts synchronous
+    tokens = []                             # raw documents by delivery number (the model only carries the number)
+    def raw_of(k, j=None):
+        sub = calls[k if j is None else j]
+        return build_reply(sub, st[k]['mid'])
+    def dispatch(step):
+        k = step[1]
+        raw = raw_of(k, step[2] if step[0] == 'stray' else None)
+        tokens.append(raw); events.append([4, k + 1, B(str(len(tokens) - 1))])
+        if step[0] == 'deliver' and not st[k]['delivered']:
+            st[k]['raw'] = raw; st[k]['delivered'] = True
+        try: s._dispatch_message(raw)
+        except OperationError: pass           # an id that is not (any more) awaited: reported to the transport, nothing for the caller
+    def script(req, mid):
+        k = plan['now']; st[k]['mid'] = mid
+        for step in plan['inline']: dispatch(step)
+        plan['sent'].set()
+        return []
+    m, s = F.make_manager(prof, script)
+    m.huge_tree = case['huge0']
+    mgr_huge = case['huge0']
+    RM = [operations.RaiseMode.NONE, operations.RaiseMode.ERRORS, operations.RaiseMode.ALL]
+    results = {}
+    with F.ParseSites() as ps:
+        i = 0
+        while i < len(steps):
+            step = steps[i]; i += 1
+            kind = step[0]
+            if kind == 'mgr_huge':
+                m.huge_tree = mgr_huge = step[1]; events.append([0, int(step[1])])
+            elif kind == 'call':
+                k = step[1]; c = calls[k]; op, mode = c['op'], c['mode']
+                forced = op in FORCED_OPS
+                st[k]['flag'] = mgr_huge or forced
+                st[k]['events_at'] = None
+                m.async_mode = mode == 'async'
+                m.raise_mode = RM[c.get('raise_mode', 0)]
+                events.append([1, int(mode == 'async')])
+                plan['now'] = k; plan['inline'] = []; plan['sent'].clear()
+                if mode == 'async':
+                    events.append([2, k + 1, CCODE[op], int(forced)])
+                    out, res = invoke(m, op)
+                    if not isinstance(res, operations.RPC):
+                        r.fail('call %d: asynchronous request did not return the RPC object' % k, expected='RPC', actual=out); return
+                    st[k]['rpc'] = res
+                    if res.reply is not None or res.event.is_set():
+                        r.fail('call %d: a reply is present before the server answered' % k, expected=None, actual=str(res.reply)[:100])
+                    continue
+                # synchronous: the deliveries up to its own happen while it waits
+                j = i
+                while j < len(steps) and steps[j][0] in ('deliver', 'stray') and not (steps[j][0] == 'deliver' and steps[j][1] == k): j += 1
+                if j >= len(steps) or steps[j][0] not in ('deliver', 'stray'):
+                    r.fail('harness: synchronous call %d is not followed by its delivery' % k); return
+                during = steps[i:j + 1]; i = j + 1
+                n0 = len(ps.log)
+                events.append([2, k + 1, CCODE[op], int(forced)])
+                if mode == 'sync':
+                    plan['inline'] = during
+                    out, res = invoke(m, op)
+                else:
+                    box = {}
+                    def worker():
+                        try: box['r'] = invoke(m, op)
+                        except BaseException as ex: box['x'] = ex
+                    th = threading.Thread(target=worker); th.start()
+                    if not plan['sent'].wait(10):
+                        r.fail('call %d: request was not sent' % k); return
+                    for d in during: dispatch(d)
+                    th.join(20)
+                    if th.is_alive():
+                        r.fail('call %d: the waiting caller did not return after its reply was delivered' % k); return
+                    if 'x' in box: raise box['x']
+                    out, res = box['r']
+                sites = relabel(ps.log[n0:])
+                evs = [list(e) for e in events]
+                def mreq(rk, exp, evs=evs, k=k): return [11, int(case['huge0']), 0, evs, k + 1, PCODE[prof], rk, exp]
+                results[k] = (out, res)
+                judge(r, c, prof, op, st[k]['flag'], c.get('raise_mode', 0), st[k]['raw'], out, res, sites, mreq, mode=mode, tag='call %d (%s %s): ' % (k, mode, op))
+            elif kind in ('deliver', 'stray'):
+                k = step[1]
+                if st[k]['mid'] is None:
+                    r.fail('harness: delivery for call %d before the call' % k); return
+                first = kind == 'deliver' and not st[k]['delivered']
+                dispatch(step)
+                rpc = st[k]['rpc']
+                if first and rpc is not None and (rpc.reply is None or not rpc.event.is_set()):
+                    r.fail('call %d: the reply was dispatched but did not reach the RPC object' % k, expected='reply', actual=None)
+            elif kind == 'rpc_huge':
+                k = step[1]
+                if st[k]['rpc'] is None: continue
+                st[k]['rpc'].huge_tree = step[2]; events.append([3, k + 1, int(step[2])])
+                if not st[k]['delivered']: st[k]['flag'] = step[2]
+            elif kind == 'read':
+                k = step[1]; c = calls[k]; rpc = st[k]['rpc']
+                if rpc is None or not st[k]['delivered']: continue
+                reply = rpc.reply
+                if reply is None:
+                    r.fail('call %d: no reply on the RPC object after delivery' % k); continue
+                n0 = len(ps.log)
+                out, res = 'reply', reply
+                try:
+                    for v in step[2]:
+                        name = READS[v % len(READS)]
+                        if name == 'data': name = {1: 'data_ele', 2: 'data'}.get(CCODE[c['op']], 'ok')
+                        getattr(reply, name)
+                    reply.parse()                                  # reading .xml alone does not parse
+                except etree.XMLSyntaxError as ex: out, res = 'parse-error', ex
+                except AttributeError as ex: out, res = 'hook-error', ex
+                sites = relabel(ps.log[n0:])
+                first_read = st[k]['n_read'] == 0; st[k]['n_read'] += 1
+                flag = st[k]['flag']
+                def mreq(rk, exp, c=c, flag=flag): return [10, PCODE[prof], CCODE[c['op']], int(flag), exp]
+                jr = r if first_read else Res()
+                judge(jr, c, prof, c['op'], flag, 0, st[k]['raw'], out, res, sites, mreq, mode='async',
+                      tag='call %d (async %s, read %d): ' % (k, c['op'], st[k]['n_read']))
+                if jr is not r: r.fails.extend(jr.fails)
+                st[k]['seen'] = (type(reply).__name__, reply.xml, sites[0][1] if sites else st[k].get('seen', (0, 0, None))[2])
+            else:
+                r.fail('harness: unknown step %r' % (step,)); return
+    # ---- the whole history against the model: per call class, flag, registration, the reply object (class, text, flag it was parsed with)
+    lst = s.get_listener_instance(RPCReplyListener)
+    table = getattr(lst, '_id2rpc', None)
+    impl, mask = [], []
+    CLSNAME = {'RPCReply': 0, 'GetReply': 1, 'GetSchemaReply': 2}
+    tokidx = {}
+    for n, raw in enumerate(tokens): tokidx.setdefault(raw, n)
+    order = [e[1] - 1 for e in events if e[0] == 2]
+    for k in order:
+        c = calls[k]; rpc = st[k]['rpc']
+        if rpc is None:
+            impl.append([k + 1, None, None, None, None, None])                  # synchronous: the caller never holds the RPC object
+            continue
+        rep = None
+        if rpc.reply is not None:
+            seen = st[k].get('seen')
+            rep = [[CLSNAME.get(type(rpc.reply).__name__, 9), rpc.reply.xml, None if not seen or seen[2] is None else int(seen[2])]]
+        impl.append([k + 1, CLSNAME.get(rpc.REPLY_CLS.__name__, 9), int(bool(rpc.huge_tree)), int(bool(rpc.is_async)),
+                     None if table is None else int(rpc.id in table), [] if rep is None else rep])
+    def post(v, impl=impl, tokens=tokens):
+        out = []
+        for mv, iv in zip(v, impl):
+            mv = list(mv)
+            if len(mv) == 6 and mv[5]:
+                cls_, tok, fl = mv[5][0]
+                mv[5] = [[cls_, tokens[int(tok.decode())], fl]]
+            # fields the caller cannot observe are taken from the model
+            for x in range(min(len(mv), len(iv))):
+                if iv[x] is None: iv[x] = mv[x]
+            if len(mv) == 6 and mv[5] and iv[5] and iv[5][0][2] is None: iv[5][0][2] = mv[5][0][2]
+            out.append(mv)
+        return out
+    if True:
+        r.mcalls.append(([9, int(case['huge0']), 0, events], impl, 'history: RPC objects and their replies at the end', post))
+    r.hist['hist calls'] = len(order)
+    r.hist['hist modes'] = '+'.join(sorted(set(c['mode'] for c in calls)))
+
+
+def gen_hist(rng, g, prof, ncalls=None):
+    ncalls = ncalls or rng.choice([1, 2, 2, 3, 3, 4])
+    calls, steps = [], []
+    issued, pending, unread, asyncs, answered = 0, [], [], [], []
+    def new_call():
+        op = rng.choice(OPS[prof])
+        try: reply, exp = gen_reply(rng, g, op)
+        except Exception: reply, exp = R('<data/>'), None
+        c = {'op': op, 'mode': rng.choice(['async', 'async', 'async', 'sync', 'syncthread']), 'raise_mode': rng.choice([0, 0, 2]),
+             'reply': reply, 'expected': exp, 'query': rng.randint(0, 50)}
+        calls.append(c); return len(calls) - 1
+    def deliver(k):
+        pending.remove(k); steps.append(['deliver', k]); unread.append(k); answered.append(k)
+    while issued < ncalls or pending or unread:
+        acts = []                                               # applicable actions, weighted
+        if issued < ncalls: acts.append(('call', 5.0))
+        if pending: acts.append(('deliver', 4.0))
+        if unread: acts.append(('read', 4.0))
+        if issued < ncalls or pending: acts.append(('mgr_huge', 1.5))
+        if [k for k in asyncs if k in pending or k in unread]: acts.append(('rpc_huge', 0.7))
+        if answered: acts.append(('stray', 0.5))
+        x = rng.random() * sum(w for _, w in acts)
+        for act, w in acts:
+            x -= w
+            if x < 0: break
+        if act == 'mgr_huge': steps.append(['mgr_huge', rng.random() < 0.5])
+        elif act == 'call':
+            k = new_call(); issued += 1
+            steps.append(['call', k])
+            if calls[k]['mode'] == 'async':
+                pending.append(k); asyncs.append(k)
+            else:
+                for p in [p for p in list(pending) if rng.random() < 0.5]: deliver(p)
+                if answered and rng.random() < 0.1: steps.append(['stray', rng.choice(answered), k])
+                steps.append(['deliver', k]); answered.append(k)
+        elif act == 'deliver': deliver(rng.choice(pending))
+        elif act == 'rpc_huge': steps.append(['rpc_huge', rng.choice([k for k in asyncs if k in pending or k in unread]), rng.random() < 0.5])
+        elif act == 'stray': steps.append(['stray', rng.choice(answered), rng.randrange(len(calls))])
+        elif act == 'read':
+            k = rng.choice(unread)
+            steps.append(['read', k, [rng.randrange(4) for _ in range(rng.randint(1, 3))]])
+            if rng.random() < 0.85: unread.remove(k)
+    return {'kind': 'hist', 'profile': prof, 'huge0': rng.random() < 0.3, 'calls': calls, 'steps': steps}
+
+def hist_cases(rng, tier):
+    n = 250 if tier == 'quick' else 2500
+    g = X.DocGen(rng, max_depth=3, max_kids=3, same_local_attrs=0.04)
+    return [gen_hist(rng, g, prof) for _ in range(n) for prof in PROFILES]
+
+def big_hist_cases(tier):
+    """replies at libxml2's limits delivered after request() returned / while the caller waits: every operation that enables huge-tree
+    support by itself, and plain operations under a Manager setting that changes before the reply comes"""
+    out = []
+    T = ['text', 11 * 1024 * 1024]; D = ['depth', 300]
+    def h(prof, huge0, op, mode, big, pre=(), mid=(), extra=None):
+        calls = [{'op': op, 'mode': mode, 'raise_mode': 0, 'big': big}]
+        steps = [list(x) for x in pre] + [['call', 0]] + [list(x) for x in mid] + [['deliver', 0]]
+        if extra:
+            calls.append({'op': extra, 'mode': 'async', 'raise_mode': 0, 'reply': R('<data/>'), 'query': 0})
+            steps = steps[:-1] + [['call', 1], ['deliver', 1]] + steps[-1:]
+        if mode == 'async': steps.append(['read', 0, [2, 0]])
+        if extra: steps.append(['read', 1, [0]])
+        return {'kind': 'hist', 'profile': prof, 'huge0': huge0, 'calls': calls, 'steps': steps}
+    forced = [(p, 'get_schema') for p in PROFILES] + [('junos', 'get_configuration_text'), ('sros', 'md_cli_raw_command')]
+    for prof, op in forced:
+        out.append(h(prof, False, op, 'async', T))
+        if tier == 'thorough' or prof in ('default', 'junos'):
+            out.append(h(prof, False, op, 'syncthread', T))
+            out.append(h(prof, False, op, 'async', D, extra='get'))
+    for prof in (PROFILES if tier == 'thorough' else ['default', 'alu']):
+        out.append(h(prof, True, 'get', 'async', T, mid=[['mgr_huge', False]]))                  # enabled when the call was made
+        out.append(h(prof, False, 'get', 'async', T, pre=[['mgr_huge', True]], mid=[['mgr_huge', False]], extra='get_schema'))
+        out.append(h(prof, False, 'get', 'async', D, mid=[['mgr_huge', True]]))                 # not enabled for this call: libxml2 may refuse
+        out.append(h(prof, False, 'get_config', 'async', T, mid=[['rpc_huge', 0, True]]))        # the caller enables it on the object
+    return out
 
 
 def msgid_sub(t, raw):
@@ -271,8 +570,8 @@ def gen_reply(rng, g, op):
     pro = rng.choice(['', '', '<?xml version="1.0" encoding="UTF-8"?>', '<?xml version="1.0" encoding="UTF-8"?>\n', '<!--hello-->'])
     return pro + X.serialise(sd, rng) + rng.choice(['', '', '\n']), exp
 
-OPS = {'default': ['get', 'get_config', 'get_schema', 'dispatch'], 'junos': ['get', 'get_config', 'get_schema', 'rpc'],
-       'alu': ['get', 'get_config', 'get_schema', 'dispatch'], 'sros': ['get', 'get_config', 'get_schema', 'dispatch']}
+OPS = {'default': ['get', 'get_config', 'get_schema', 'dispatch'], 'junos': ['get', 'get_config', 'get_schema', 'rpc', 'get_configuration', 'get_configuration_text'],
+       'alu': ['get', 'get_config', 'get_schema', 'dispatch'], 'sros': ['get', 'get_config', 'get_schema', 'dispatch', 'md_cli_raw_command']}
 
 def cases_for(rng, tier):
     n = 1000 if tier == "quick" else 5000
@@ -281,7 +580,7 @@ def cases_for(rng, tier):
     for i in range(n):
         for prof in PROFILES:
             ops = OPS[prof]
-            for op in ([ops[i % 2], ops[2 + i % 2]] if tier == 'quick' else ops):
+            for op in ([ops[i % 2], ops[2 + i % (len(ops) - 2)]] if tier == 'quick' else ops):
                 try:
                     reply, exp = gen_reply(rng, g, op)
                 except Exception:
@@ -295,7 +594,7 @@ def big_cases():
     for prof in PROFILES:
         for huge in (False, True):
             for kind, n in (('text', 11 * 1024 * 1024), ('depth', 300)):
-                for op in ('get', OPS[prof][3], 'get_schema'):
+                for op in ('get', OPS[prof][3], 'get_schema') + tuple(o for o in OPS[prof] if o in FORCED_OPS and o != 'get_schema'):
                     out.append({'profile': prof, 'op': op, 'huge': huge, 'raise_mode': 2, 'big': [kind, n]})
             out.append({'profile': prof, 'op': 'get', 'huge': huge, 'raise_mode': 2, 'big': ['text', 11 * 1024 * 1024], 'errors': 2})
             out.append({'profile': prof, 'op': 'get', 'huge': huge, 'raise_mode': 2, 'big': ['depth', 300], 'errors': 2})
@@ -313,11 +612,37 @@ PINNED = [
     {'profile': 'junos', 'op': 'rpc', 'huge': True, 'reply': R('<a:out xmlns:a="urn:a" a:k="v"> <a:line>1</a:line>\n<a:line> </a:line>mixed<!--c--><?pi d?></a:out>'), 'query': 1},
 ]
 
+def H(prof, huge0, calls, steps): return {'kind': 'hist', 'profile': prof, 'huge0': huge0, 'calls': calls, 'steps': steps}
+def C(op, mode, body, rm=0): return {'op': op, 'mode': mode, 'raise_mode': rm, 'reply': R(body), 'query': 0}
+SCH = '<data xmlns="%s">module m { }</data>' % NCM
+PINNED_HIST = [
+    # replies in the reverse order of the requests, the Manager's flag changed in between
+    H('default', False, [C('get_schema', 'async', SCH), C('get', 'async', '<data><a xmlns="urn:a"/></data>')],
+      [['call', 0], ['mgr_huge', True], ['call', 1], ['mgr_huge', False], ['deliver', 1], ['deliver', 0], ['read', 0, [2]], ['read', 1, [0, 2]]]),
+    # a synchronous call answered after an older asynchronous one, by another thread
+    H('junos', True, [C('get_configuration_text', 'async', '<configuration-text xmlns="urn:j">x</configuration-text>'), C('get', 'syncthread', '<data><b/></data>')],
+      [['call', 0], ['mgr_huge', False], ['call', 1], ['deliver', 0], ['deliver', 1], ['read', 0, [1]]]),
+    # Junos device answering get-schema in the base namespace, read after request() returned
+    H('junos', False, [C('get_schema', 'async', '<data>module j { }</data>')], [['call', 0], ['deliver', 0], ['read', 0, [2]], ['read', 0, [0, 2]]]),
+    # a second message repeating an answered id does not replace the reply
+    H('sros', False, [C('md_cli_raw_command', 'async', '<results xmlns="urn:s">one</results>'), C('get', 'async', '<data>two</data>')],
+      [['call', 0], ['call', 1], ['deliver', 0], ['stray', 0, 1], ['deliver', 1], ['read', 0, [0, 1]], ['read', 1, [2]]]),
+    # the caller switches huge-tree support on the asynchronous object itself
+    H('alu', False, [C('get_config', 'async', '<data><c/></data>')], [['call', 0], ['rpc_huge', 0, True], ['deliver', 0], ['rpc_huge', 0, False], ['read', 0, [2]]]),
+]
+
 def nontrivial(case):
+    if case.get('kind') == 'hist': return any(nontrivial(c) for c in case['calls'])
     return 'big' in case or case['reply'].count('<') >= 5
 
 def jsonable(c):
-    c = dict(c); c.pop('expected', None); return c
+    c = dict(c); c.pop('expected', None)
+    if 'calls' in c: c['calls'] = [jsonable(x) for x in c['calls']]
+    return c
+
+def brief(jc):
+    if 'calls' in jc: return dict(jc, calls=[brief(c) for c in jc['calls']])
+    return {k: (v if k != 'reply' else v[:300]) for k, v in jc.items()}
 
 def run(ctx):
     sys.setrecursionlimit(20000)
@@ -327,17 +652,29 @@ def run(ctx):
         for f in sorted(os.listdir(cdir)):
             if f.endswith('.json'): cases.append(json.load(open(os.path.join(cdir, f)))['case'])
     cases += [dict(c) for c in PINNED]
+    cases += [json.loads(json.dumps(c)) for c in PINNED_HIST]
     cases += cases_for(ctx.rng, ctx.tier)
+    cases += hist_cases(ctx.rng, ctx.tier)
+    cases += big_hist_cases(ctx.tier)
     if ctx.tier == 'thorough': cases += big_cases()
     pending = []
     for case in cases:
         r = evaluate(case)
         jc = jsonable(case)
         ctx.count(jc, nontrivial=nontrivial(case))
-        ctx.hist('profile', case['profile']); ctx.hist('op', case['op']); ctx.hist('huge_tree', case['huge'])
-        if 'big' in case: ctx.hist('big', '%s huge=%s' % (case['big'][0], case['huge']))
+        ctx.hist('profile', case['profile'])
+        if case.get('kind') == 'hist':
+            ctx.hist('kind', 'history')
+            for c in case['calls']:
+                ctx.hist('op', c['op']); ctx.hist('mode', c['mode'])
+                if 'big' in c: ctx.hist('big', '%s %s %s' % (c['big'][0], c['mode'], c['op']))
+            for st in case['steps']: ctx.hist('step', st[0])
+        else:
+            ctx.hist('kind', 'single call'); ctx.hist('mode', 'sync')
+            ctx.hist('op', case['op']); ctx.hist('huge_tree', case['huge'])
+            if 'big' in case: ctx.hist('big', '%s huge=%s' % (case['big'][0], case['huge']))
         for k, v in r.hist.items(): ctx.hist(k, v)
-        if ctx.evaluations % 401 == 1: ctx.sample({'case': {k: (v if k != 'reply' else v[:300]) for k, v in jc.items()}, 'oracle_failures': len(r.fails)})
+        if ctx.evaluations % 401 == 1: ctx.sample({'case': brief(jc), 'oracle_failures': len(r.fails)})
         for what, exp, act, sig in r.fails: ctx.fail(jc, what, sig=sig, expected=exp, actual=act)
         for call, impl, what, post in r.mcalls: pending.append((jc, call, impl, what, post))
     if ctx.model and pending:
@@ -345,7 +682,9 @@ def run(ctx):
         for (jc, call, impl, what, post), mo in zip(pending, outs):
             if isinstance(mo, str):
                 ctx.disagree(jc, mo, impl, 'model runner error: ' + what); continue
-            if call[0] == 5: mo = [mo[0], [tuple(x) for x in mo[1]]]; impl = [impl[0], list(impl[1])]
+            if post == 'outcome':
+                if call[0] == 11: mo = mo[0] if mo else [None, []]
+                mo = [mo[0], [tuple(x) for x in mo[1]]]; impl = [impl[0], list(impl[1])]
             elif post is not None: mo = post(mo)
             if mo != impl: ctx.disagree(jc, mo, impl, what, theorem='C10_*')
         ctx.extra['model_calls'] = len(pending)
@@ -353,7 +692,8 @@ def run(ctx):
 
 def search(ctx, seeds):
     import random
-    tries = list(seeds) + [jsonable(c) for c in cases_for(random.Random(ctx.seed + 1), 'quick')]
+    rng = random.Random(ctx.seed + 1)
+    tries = list(seeds) + [json.loads(json.dumps(c)) for c in PINNED_HIST] + big_hist_cases('quick') + hist_cases(rng, 'quick') + [jsonable(c) for c in cases_for(rng, 'quick')]
     from vlib import findings
     for case in tries:
         r = evaluate(case)
@@ -368,7 +708,7 @@ def reproduce(finding):
 def replay(doc):
     c = doc['case']
     r = evaluate(c)
-    print('case     :', json.dumps({k: (v if k != 'reply' else v[:1500]) for k, v in c.items()}, ensure_ascii=False))
+    print('case     :', json.dumps(brief(c), ensure_ascii=False)[:6000])
     for what, exp, act, sig in r.fails:
         print('failure  :', what, '(sig %s)' % sig if sig else ''); print('expected :', repr(exp)[:1500]); print('actual   :', repr(act)[:1500])
     if not r.fails: print('property holds on this case now')
